@@ -369,12 +369,53 @@ def query_case(rep, cs, seed, i):
     cs.add(desc, term, interp, nontrivial=True)
 
 
+def kron_case(rep, cs, seed, i):
+    """Kronecker (and Hadamard) products listing the same input scopes in the same or in a different order in the two operands:
+    the product must be refused or be smooth and decomposable"""
+    rng = rng_for(seed, PID + "kron", i)
+    n = rng.choice([2, 2, 3])
+    vs = gen.VAR_SETS[rng.choice(["dense", "sparse"])](n)
+    ptype = rng.choice(["kron", "kron", "had"])
+
+    def mk(order):
+        parts = [emb(v, 1) for v in order]
+        pl = L.KroneckerLayer(1, arity=n) if ptype == "kron" else L.HadamardLayer(1, arity=n)
+        sl = L.SumLayer(1, 1, arity=1, weight=P.Parameter.from_input(P.ConstantParameter(1, 1, value=1.0)))
+        return Circuit(parts + [pl, sl], {pl: parts, sl: [pl]}, [sl])
+
+    o1 = list(vs)
+    o2 = list(vs)
+    swapped = rng.random() < 0.6
+    if swapped:
+        while o2 == o1:
+            rng.shuffle(o2)
+    a, b = mk(o1), mk(o2)
+    desc = {"i": i, "seed": seed, "op": "multiply", "family": "product-input-order", "ptype": ptype, "orders": [o1, o2], "n": len(a.layers)}
+    rep.count(f"family:product-input-order:{ptype}:{'swapped' if swapped else 'aligned'}")
+    res, err = call(SF.multiply, a, b)
+    rep.count("kron:" + (err or "returned"))
+    if res is not None:
+        check_result(rep, desc, "multiply", res, sorted(a.scope._set), 1)
+    elif not swapped or ptype == "had":
+        rep.violation("multiply-refuses-valid", "multiply refused two compatible circuits whose products are aligned (or commutative)", {"case": desc, "observed": err})
+    ex = export.Exporter()
+    impl = [0 if res is not None else 1]
+    term = f"[match multiply_m {ex.circuit(a)} {ex.circuit(b)} with Ok p => (if is_smooth p && is_decomposable p then 0 else 7) | Err _ => 1 end]"
+
+    def interp(res_, desc=desc, impl=impl):
+        if res_ != impl:
+            rep.violation("refusal-corr", "the model operator and cirkit disagree on the product of circuits whose product layers list their inputs in different orders "
+                          "(0 ok, 1 refused, 7 model result not decomposable)", {"case": desc, "model": res_, "implementation": impl}, found_input=False)
+
+    cs.add(desc, term, interp, nontrivial=True)
+
+
 def run(rep, tier, seed, replay=None):
     n = 300 if tier == "quick" else 5000
     cs = CaseSet(rep, PID)
     if replay is not None:
         c = replay["replay"].get("case", {})
-        {"overlapping-output-scopes": overlap_case, "constant-inputs": const_case, "query": query_case}.get(c.get("family"), one_case)(rep, cs, c.get("seed", seed), c.get("i", 0))
+        {"overlapping-output-scopes": overlap_case, "constant-inputs": const_case, "query": query_case, "product-input-order": kron_case}.get(c.get("family"), one_case)(rep, cs, c.get("seed", seed), c.get("i", 0))
         cs.run()
         return
     for i in range(n):
@@ -385,4 +426,6 @@ def run(rep, tier, seed, replay=None):
         const_case(rep, cs, seed, i)
     for i in range(max(40, n // 6)):
         query_case(rep, cs, seed, i)
+    for i in range(max(20, n // 12)):
+        kron_case(rep, cs, seed, i)
     cs.run(shard=max(10, 300 // 14))  # shard size of the quick tier: thorough runs use more files, not longer ones
